@@ -708,7 +708,15 @@ class CallMixin:
                     continue
                 dc, node = impl
                 f = Func(node, dc.module, {}, f"{dc.name}.{mr.name}", self_val=Z(T("ref", (), cs[0] if len(cs) == 1 else dc.name), recv.e), cls=dc)
-                vals.append((c, self.call_func(st, f, args, kwargs)))
+                # the alternative is only meaningful for receivers of these classes: obligations raised inside (preconditions
+                # of contract calls under a binder) are guarded by the class condition
+                st.ghost.setdefault("__guards", []).append(c)
+                try:
+                    vals.append((c, self.call_func(st, f, args, kwargs)))
+                except PyRaise:
+                    pass      # this class's method raises for every receiver: no value (callers are obliged to exclude the class)
+                finally:
+                    st.ghost["__guards"].pop()
             if not vals:
                 # no class of the receiver defines the method: python raises AttributeError at this call
                 raise PyRaise(self.make_exc(st, "AttributeError", [zstr(mr.name)]))
